@@ -11,7 +11,9 @@ mod c13;
 mod c14;
 mod c15;
 mod c16;
+mod c37;
 mod c38;
+mod c39;
 mod c40;
 mod c41;
 mod c42;
@@ -32,7 +34,9 @@ fn main() {
         "c14" => c14::run(quick, seed, &work),
         "c15" => c15::run(quick, seed),
         "c16" => c16::run(quick, seed),
+        "c37" => c37::run(quick, seed),
         "c38" => c38::run(quick, seed),
+        "c39" => c39::run(quick, seed, &work),
         "c40" => c40::run(quick, seed),
         "c41" => c41::run(quick, seed),
         "c42" => c42::run(quick, seed),
